@@ -195,7 +195,25 @@ Definition judge_sender (start : N) (p : prog) (o : sobs) : verdict :=
     creates; [sched] = the order of the atomic steps, reconstructed by the harness from the ids (a
     witness: if it is wrong the correspondence fails); [co_ids] = the ids each thread got back from
     [new_span], in its program order; [co_event_ids] = ids of the [NewSpan] events in stream order. *)
-Record cobs := mk_cobs { co_ids : list (list N); co_event_ids : list N }.
+Record cobs := mk_cobs {
+  co_ids : list (list N);
+  co_event_ids : list N;
+  (* per thread, what it contributed to the stream, in stream order: (0, i) the [NewSpan] of its i-th
+     span, (1, i) the [NewEvent] it emitted inside it, (2, i) the [SpanDropped] of that span *)
+  co_stream : list (list (N * N));
+  (* events that could not be attributed to a thread *)
+  co_stray : N }.
+
+(** what thread [t] of the harness does ([busy]: it also emits events): for i = 0 .. n-1 it creates
+    span i, emits an event in it when (t + i) mod 3 = 0, and drops it at once unless (t + i) is even;
+    the spans it kept are dropped at the end, in creation order.  One event per call, in call order. *)
+Definition conc_thread_expected (busy : bool) (t n : nat) : list (N * N) :=
+  flat_map (fun i =>
+              [(0, N.of_nat i)]
+              ++ (if busy && Nat.eqb ((t + i) mod 3) 0 then [(1, N.of_nat i)] else [])
+              ++ (if Nat.eqb ((t + i) mod 2) 0 then [] else [(2, N.of_nat i)]))
+           (seq 0 n)
+  ++ map (fun i => (2, N.of_nat i)) (List.filter (fun i => Nat.eqb ((t + i) mod 2) 0) (seq 0 n)).
 
 Definition count_nat (t : nat) (l : list nat) : nat := List.length (List.filter (Nat.eqb t) l).
 
@@ -208,16 +226,22 @@ Definition conc_corr (start : N) (counts : list nat) (sched : list nat) (o : cob
   let out := crun_from start sched in
   list_eqb (list_eqb N.eqb) (map (fun t => ids_of t out) (seq 0 (List.length counts))) (co_ids o).
 
-Definition conc_ok (counts : list nat) (o : cobs) : bool :=
+Definition conc_ok (counts : list nat) (busy : bool) (o : cobs) : bool :=
   let all := List.concat (co_ids o) in
   nodup_N all && forallb (fun id => negb (id =? 0)) all
   && list_eqb Nat.eqb (map (@List.length N) (co_ids o)) counts
   && nodup_N (co_event_ids o)
   && Nat.eqb (List.length (co_event_ids o)) (List.length all)
-  && forallb (fun id => mem_N id all) (co_event_ids o).
+  && forallb (fun id => mem_N id all) (co_event_ids o)
+  (* every call of every thread produced exactly one event, and each thread's events are in the
+     stream in the order of its calls *)
+  && list_eqb (list_eqb (pair_eqb N.eqb N.eqb))
+       (map (fun tn => conc_thread_expected busy (fst tn) (snd tn)) (combine (seq 0 (List.length counts)) counts))
+       (co_stream o)
+  && (co_stray o =? 0).
 
-Definition judge_conc (start : N) (counts : list nat) (sched : list nat) (o : cobs) : verdict :=
-  judge_of (conc_hyp start counts sched) (conc_corr start counts sched o) (conc_ok counts o).
+Definition judge_conc (start : N) (counts : list nat) (sched : list nat) (busy : bool) (o : cobs) : verdict :=
+  judge_of (conc_hyp start counts sched) (conc_corr start counts sched o) (conc_ok counts busy o).
 
 (** * The equalities are equalities *)
 Lemma sparent_eqb_spec a b : sparent_eqb a b = true <-> a = b.
@@ -310,9 +334,15 @@ Example judge_examples_detect :
   /\ perturb (map_nth 2 (fun e => ESpanEntered 2)) ex_fib = PropFail.
 Proof. vm_compute. repeat split. Qed.
 
+Definition ex_conc_stream : list (list (N * N)) :=
+  [ [(0, 0); (1, 0); (0, 1); (2, 1); (2, 0)]; [(0, 0); (2, 0); (0, 1)%N; (2, 1)]; [(0, 0); (2, 0)] ].
 Example judge_conc_examples :
-  judge_conc 1 [2; 2; 1]%nat [0; 1; 0; 2; 1]%nat (mk_cobs [[1; 3]; [2; 5]; [4]] [2; 1; 3; 5; 4]) = Agree
-  /\ judge_conc 1 [2; 2; 1]%nat [0; 1; 0; 2; 1]%nat (mk_cobs [[1; 3]; [2; 3]; [4]] [2; 1; 3; 3; 4]) = PropFail
-  /\ judge_conc 1 [2; 2; 1]%nat [0; 1; 0; 2; 1]%nat (mk_cobs [[1; 3]; [2; 6]; [4]] [2; 1; 3; 6; 4]) = Mismatch
-  /\ judge_conc 1 [2; 2; 1]%nat [0; 1; 0; 2]%nat (mk_cobs [[1; 3]; [2; 5]; [4]] [2; 1; 3; 5; 4]) = OutOfScope.
+  judge_conc 1 [2; 2; 1]%nat [0; 1; 0; 2; 1]%nat true (mk_cobs [[1; 3]; [2; 5]; [4]] [2; 1; 3; 5; 4] ex_conc_stream 0) = Agree
+  /\ judge_conc 1 [2; 2; 1]%nat [0; 1; 0; 2; 1]%nat true (mk_cobs [[1; 3]; [2; 3]; [4]] [2; 1; 3; 3; 4] ex_conc_stream 0) = PropFail
+  /\ judge_conc 1 [2; 2; 1]%nat [0; 1; 0; 2; 1]%nat true (mk_cobs [[1; 3]; [2; 6]; [4]] [2; 1; 3; 6; 4] ex_conc_stream 0) = Mismatch
+  /\ judge_conc 1 [2; 2; 1]%nat [0; 1; 0; 2]%nat true (mk_cobs [[1; 3]; [2; 5]; [4]] [2; 1; 3; 5; 4] ex_conc_stream 0) = OutOfScope
+  (* an event of thread 0 lost in the hook *)
+  /\ judge_conc 1 [2; 2; 1]%nat [0; 1; 0; 2; 1]%nat true
+       (mk_cobs [[1; 3]; [2; 5]; [4]] [2; 1; 3; 5; 4]
+                [ [(0, 0); (0, 1); (2, 1); (2, 0)]; [(0, 0); (2, 0); (0, 1)%N; (2, 1)]; [(0, 0); (2, 0)] ] 0) = PropFail.
 Proof. vm_compute. repeat split. Qed.
